@@ -8,6 +8,8 @@ if [ ! -d .pydeps/jsonschema ]; then
 fi
 tmp=$(mktemp -d)
 cp spec/*.tla spec/mc/*.tla spec/trace/*.tla "$tmp"/ 2>/dev/null || true
+# sample instances of the modules generated at run time (type graphs, cache pool constants)
+PYTHONPATH=/repo /venv/bin/python harness/gen_stubs.py "$tmp"
 for f in "$tmp"/*.tla; do
   (cd "$tmp" && tla-sany "$(basename "$f")" >/dev/null 2>&1) || { echo "SANY failed on $f"; (cd "$tmp" && tla-sany "$(basename "$f")" | tail -20); rm -rf "$tmp"; exit 1; }
 done
